@@ -79,3 +79,22 @@ Fixpoint no_missing (v : val) : bool :=
   | VL l => (fix go (l : list val) := match l with [] => true | x :: r => no_missing x && go r end) l
   | _ => true
   end.
+
+(* the hypotheses of Complete_C29.vdb_install_complete as a boolean the harness evaluates on
+   every vdb install scenario (stream probe, eval hyps_bad): category and name are listable, item
+   names are distinct and none is .update.CONTENTS, nothing is bound at or below the package
+   directory, a stale staging entry is a directory, and the items cover the 13 keys *)
+Definition install_hyps_ok (c : scen) : bool :=
+  let names := map item_name (sc_items c) in
+  let dst := pkgdir (sc_loc c) (sc_cat c) (sc_pf c) in
+  vdb_cat_ok (sc_cat c) && negb (vdb_skip (sc_pf c))
+  && nodupb str_eqb names && negb (existsb (str_eqb (UPDATE ++ CONTENTS)) names)
+  && forallb (fun e => negb (is_prefix dst (fst e))) (sc_fs c)
+  && match lookup (sc_fs c) (tmpdir (sc_loc c) (sc_cat c) (sc_pf c)) with Some n => is_dir_node n | None => true end
+  && forallb (fun k => existsb (str_eqb (fst k)) names) (vdb_keys (sc_pf c)).
+Definition hyps_bad (p : probe) (r : val) : bool :=
+  match p with
+  | POps c _ => match sc_kind c with KVInstall => negb (install_hyps_ok c) | _ => false end
+  | _ => false
+  end.
+
